@@ -7,3 +7,5 @@ open Photon.RangeSplit
 #print axioms C15_tiling_power2
 #print axioms C15_classification
 #print axioms C15_wrap_witness
+#print axioms C15_tiling_vi
+#print axioms tilesV_generic
